@@ -199,6 +199,24 @@ impl Compactor {
         self
     }
 
+    /// Verification hook: move the scheduling instant of every pending deletion `secs`
+    /// seconds into the past (observationally the same as `secs` seconds passing).
+    #[cfg(feature = "verif-hooks")]
+    pub fn verif_shift_pending_deletions(&self, secs: i64) {
+        let delta = chrono::Duration::seconds(secs);
+        let mut pending = self.pending_deletions.write().unwrap();
+        for entry in pending.iter_mut() {
+            entry.scheduled_at -= delta;
+        }
+    }
+
+    /// Verification hook: paths currently scheduled for deletion.
+    #[cfg(feature = "verif-hooks")]
+    pub fn verif_pending_deletions(&self) -> Vec<String> {
+        let pending = self.pending_deletions.read().unwrap();
+        pending.iter().map(|entry| entry.path.clone()).collect()
+    }
+
     /// Get current backpressure state (for ingesters to check)
     pub fn backpressure(&self) -> CompactionBackpressure {
         let l0_pending = self.l0_pending_count.load(Ordering::Relaxed);
